@@ -205,10 +205,10 @@ def insert_loop_contracts(body, loops, ledger, fn):
             pass
         return body
     pos = loop_positions(body)
-    if len(pos) != max(int(k) for k in loops) + 1 and len(pos) < max(int(k) for k in loops) + 1:
-        raise ExtractError("%s: expected at least %d loops, found %d (lost anchor)" % (fn, max(int(k) for k in loops) + 1, len(pos)))
-    if len(pos) != loops.get("_count", len(pos)):
-        raise ExtractError("%s: loop count changed: %d, contract written for %d (lost anchor)" % (fn, len(pos), loops["_count"]))
+    ords = [int(k) for k in loops if k != "_count"]
+    want = loops.get("_count", max(ords) + 1)
+    if len(pos) != want:
+        raise ExtractError("%s: loop count changed: found %d, contract written for %d (lost anchor)" % (fn, len(pos), want))
     # apply from the last loop backwards so indices stay valid
     for ordn in sorted((int(k) for k in loops if k != "_count"), reverse=True):
         kw, ob, cb = pos[ordn]
@@ -357,6 +357,10 @@ def desugar(body, methods, ledger, fn):
                 raise ExtractError("%s: try_or without `||` closure literal" % fn)
             new = ("(match %s { Value::Null | Value::Boolean(false) => (match %s { %s(__v) => %s(__v), %s(__e) => %s(ValueError::Or(__e)) }), "
                    "__v => %s(__v) })") % (recv, cbody, R_OK, R_OK, R_ERR, R_ERR, R_OK)
+        elif meth == "and_then":
+            if pat is None:
+                raise ExtractError("%s: and_then without closure literal" % fn)
+            new = "(match %s { %s(%s) => %s, %s => %s })" % (recv, O_SOME, pat, cbody, O_NONE, O_NONE)
         elif meth == "map_or":
             # map_or(DEFAULT, |x| E)
             depth, cut = 0, None
@@ -383,3 +387,43 @@ def desugar(body, methods, ledger, fn):
             " (substituted by its Kani-verified functional contract)" if meth == "try_or" else ""))
         body = body[:rs] + new + body[cp + 1:]
     raise ExtractError("%s: desugaring did not terminate" % fn)
+
+
+def desugar_let_chains(body, ledger, fn):
+    """`if let P = E && C { B }` (no else) -> `if let P = E { if C { B } }` (edition-2024 let chain,
+    by its definition: conditions are evaluated left to right)."""
+    for _ in range(50):
+        m = mask(body)
+        hit = None
+        for mm in re.finditer(r"\bif\s+let\b", m):
+            # find block open brace at depth 0 and a top-level && before it
+            k, depth, amp, ob = mm.end(), 0, None, None
+            while k < len(m):
+                ch = m[k]
+                if ch in "([":
+                    depth += 1
+                elif ch in ")]":
+                    depth -= 1
+                elif ch == "{" and depth == 0:
+                    ob = k
+                    break
+                elif m.startswith("&&", k) and depth == 0 and amp is None:
+                    amp = k
+                k += 1
+            if ob is not None and amp is not None:
+                hit = (mm.start(), amp, ob)
+                break
+        if hit is None:
+            return body
+        st, amp, ob = hit
+        cb = match_brace(m, ob)
+        after = m[cb + 1:].lstrip()
+        if after.startswith("else"):
+            raise ExtractError("%s: let chain with else branch is not supported" % fn)
+        head = body[st:amp].rstrip()
+        cond = body[amp + 2:ob].strip()
+        inner = body[ob:cb + 1]
+        new = "%s { if %s %s }" % (head, cond, inner)
+        ledger.append("desugar let chain: `%s && %s` -> nested if" % (_norm(head)[:60], _norm(cond)[:40]))
+        body = body[:st] + new + body[cb + 1:]
+    raise ExtractError("%s: let-chain desugaring did not terminate" % fn)
